@@ -80,6 +80,25 @@ def make(kind, env, seed=0, **kw):
         from rl4co.models.zoo.polynet.policy import PolyNetPolicy
 
         p = PolyNetPolicy(k=kw.pop("k", 3), env_name=name, embed_dim=32, num_encoder_layers=1, num_heads=2, **kw)
+    elif kind == "nar":
+        # the bundled NON-autoregressive policy machinery (heat-map decoder + ConstructivePolicy decode loop). Its bundled encoders
+        # (NARGNN / DeepACO) need torch_geometric, which is not installed; a tiny per-instance heat-map encoder stands in for them
+        import torch.nn as nn
+
+        from rl4co.models.common.constructive.nonautoregressive import NonAutoregressivePolicy
+
+        class TinyHeatmapEncoder(nn.Module):
+            def __init__(self):
+                super().__init__()
+                self.net = nn.Sequential(nn.Linear(5, 16), nn.Tanh(), nn.Linear(16, 1))
+
+            def forward(self, td):
+                x = td["locs"]
+                d = x[:, :, None, :] - x[:, None, :, :]
+                feat = torch.cat((d, d.norm(dim=-1, keepdim=True), x[:, :, None, :].expand(-1, -1, x.shape[1], -1)), -1)
+                return self.net(feat).squeeze(-1), None
+
+        p = NonAutoregressivePolicy(encoder=TinyHeatmapEncoder(), env_name=name, **kw)
     elif kind == "matnet_ffsp":
         # MatNet for the flexible flow shop as originally implemented: one encoder / decoder per stage, decode loop on policy level
         from rl4co.models.zoo.matnet.policy import MultiStageFFSPPolicy
